@@ -44,7 +44,7 @@ RegMenu == << <<AckF, Compl>>, <<AckF, Compl, Compl>>, <<NackF>>, <<AckF, AbortF
 SysMenu == << <<AckF, SysInfo(V1)>>, <<AckF, SysInfo(V2)>>, <<AckF, AbortF>>, <<AckF, Compl>>, <<AckF>>, <<AckF, SysInfo(V1), Inter>>, <<NackF>>, <<>> >>
 EodMenu == << <<AckF, Compl>>, <<AckF, Inter, StatusF, Compl>>, <<AckF, AbortF>>, <<NackF>>, <<AckF, Malformed0f>>, <<AckF, PrintF, Compl>>, <<>>,
               <<AckF, Foreign>>, <<AckF, Compl, Compl>> >>
-UpMenu == << <<AckF, Compl>>, <<AckF, Req(34, 0), Compl>>, <<AckF, Req(35, 0), Req(35, 7), Req(16, 0), Compl>>, <<AckF, Req(33, 0), Compl>>,
+UpMenu == << <<AckF, Compl>>, <<AckF, Req(34, 0), Compl>>, <<AckF, Req(35, 0), Req(35, 7), Req(16, 0), Compl>>, <<AckF, Req(35, 172), Req(35, 173), Req(35, 300), Compl>>, <<AckF, Req(33, 0), Compl>>,
              <<AckF, AbortF>>, <<AckF, Req(35, 100000)>>, <<AckF, Req(34, 0), Malformed0f>>, <<AckF, Req(16, 3), TruncF>>, <<AckF, ReqNoOffset, Compl>>,
              <<AckF, Req(34, 0), AbortF>>, <<NackF>>, <<AckF, Inter, Compl>> >>
 
